@@ -382,7 +382,10 @@ impl<Leaf: MerkleLeaf, Root: MerkleRoot, Proof: MerkleProof> MerkleTree<Leaf, Ro
     /// to the given `hash` at the given `index` in the tree corresponding to the given `root`.
     #[must_use]
     fn check_hash_proof(hash: Hash, index: usize, root: &Root, proof: &Proof) -> bool {
+        // a proof of length `n` covers a tree of width `2^n`;
+        // any index beyond that would alias the position `index % 2^n`
         proof.as_ref().len() <= EMPTY_ROOTS.len()
+            && index >> proof.as_ref().len() == 0
             && *Self::derive_hash_root(hash, index, proof).as_hash() == *root.as_hash()
     }
 
@@ -446,6 +449,10 @@ impl<Leaf: MerkleLeaf, Root: MerkleRoot, Proof: MerkleProof> MerkleTree<Leaf, Ro
                 _ => Self::hash_pair(h, &node),
             };
             i /= 2;
+        }
+        // index beyond the width of the tree would alias the position `index % 2^n`
+        if i != 0 {
+            return None;
         }
         Some(node.into())
     }
